@@ -5,6 +5,17 @@ INNER_INV = ('__CPROVER_assigns(i, G.next, G.since_poll)\n'
 FLAT_INV = ('__CPROVER_assigns(i, G.next, G.since_poll)\n'
             '__CPROVER_loop_invariant(i <= self->count_ && G.next == i && G.terminal == 0 && !G.stop_seen)\n'
             '__CPROVER_decreases(self->count_ - i)')
+BT = 'include/unifex/bulk_transform.hpp'
+POL = dict(sequenced_policy='POL_seq', unsequenced_policy='POL_unseq', parallel_policy='POL_par', parallel_unsequenced_policy='POL_par_unseq')
+def _one_of(m):
+    import re as _re
+    parts = [x.strip() for x in m.group(1).split(',')]
+    subj = {'receiver_policy': 'receiver_policy', 'Policy': 'Policy'}[parts[0]]
+    return '(' + ' || '.join('%s == %s' % (subj, POL[x]) for x in parts[1:]) + ')'
+bt_ctx = dict(cls='bt', members=[],
+              pre=[(r'using receiver_policy = decltype\(get_execution_policy\(r\.receiver_\)\);', ''),
+                   (r'is_one_of_v<([^<>]*)>', _one_of),
+                   (r'return unifex::(\w+);', r'return POL_\1;')])
 SPEC = dict(
     properties=['C17'],
     ctx=dict(
@@ -29,12 +40,14 @@ SPEC = dict(
                               0: '__CPROVER_assigns(chunk_start, G.next, G.terminal, G.done, G.stop_seen, G.polls, G.since_poll)\n'
                                  '__CPROVER_loop_invariant(chunk_start <= self->count_ + bulk_cancellation_chunk_size && (chunk_start < self->count_ ? G.next == chunk_start : G.next == self->count_) && G.terminal == 0 && !G.stop_seen && G.since_poll <= bulk_cancellation_chunk_size && G.value == 0 && G.done == 0)',
                               1: INNER_INV, 2: INNER_INV, 3: FLAT_INV, 4: FLAT_INV}),
+        'bt_policy': dict(file=BT, sig=r'friend auto tag_invoke\(tag_t<get_execution_policy>, const type& r\) noexcept', ctx=bt_ctx),
     },
-    units=[dict(name='bulk_set_value', harness='h_set_value', enforce='schedule_receiver_set_value', expect_loop_obligations=True, falsify_unwind=18)],
+    units=[dict(name='bulk_transform_policy', harness='h_bt_policy', enforce='bt_get_execution_policy'),
+           dict(name='bulk_set_value', harness='h_set_value', enforce='schedule_receiver_set_value', expect_loop_obligations=True, falsify_unwind=18)],
     assumptions=[
         'count <= SIZE_MAX - 64 (chunk_start + chunk wraps for counts within one chunk of the maximum)',
         'Integral instantiated as size_t; the receiver\'s set_next/set_value/set_done and the stop token are event stubs',
-        'bulk_transform / bulk_join / indexed_for policy intersection is type-level and not reached',
+        'bulk_transform policy intersection: the four policy types are an enumeration, is_one_of_v<P, A, B> is P==A||P==B (both branches of each if constexpr verified); bulk_join (always par_unseq: it has no function of its own) and indexed_for are not reached',
     ],
     drops=['template genericity over Integral (size_t) and Receiver', 'which if-constexpr branch an instantiation takes (both verified)',
            'vectorisation pragmas', 'payload of set_next is kept (the index); receivers are stubs'],
